@@ -16,12 +16,13 @@ import (
 // C15 — template cache and loaders always serve the source the configuration calls for.
 
 type c15Op struct {
-	K    string `json:"k"` // setcache setreload devmode register lset touch ldel clock load render fault
+	K    string `json:"k"` // setcache setreload devmode register lset touch ldel clock load render fault racewrite
 	L    int    `json:"l,omitempty"`
 	Name string `json:"name,omitempty"`
 	B    bool   `json:"b,omitempty"`
-	D    int64  `json:"d,omitempty"` // clock delta in seconds
-	F    string `json:"f,omitempty"` // fault kind: load-eio | mtime-err
+	D    int64  `json:"d,omitempty"`  // clock delta in seconds
+	F    string `json:"f,omitempty"`  // fault kind: load-eio | mtime-err
+	At   int    `json:"at,omitempty"` // racewrite: after how many further loader-level calls "another process" rewrites the template
 }
 
 type c15Sc struct {
@@ -72,7 +73,7 @@ func (propC15) Gen(seed uint64, ex map[string]bool) interface{} {
 	for i := 0; i < n; i++ {
 		name := pick(r, sc.Names)
 		l := r.N(nl)
-		switch c := r.N(32); {
+		switch c := r.N(34); {
 		case c < 2:
 			b := r.P(60)
 			sc.Ops = append(sc.Ops, c15Op{K: "setcache", B: b})
@@ -95,6 +96,11 @@ func (propC15) Gen(seed uint64, ex map[string]bool) interface{} {
 			sc.Ops = append(sc.Ops, c15Op{K: "ldel", L: l, Name: name})
 		case c < 21:
 			sc.Ops = append(sc.Ops, c15Op{K: "clock", D: pick(r, []int64{0, 1, 1, 2, 3600, -1, -5})})
+		case (c == 31 || c == 30) && nl > 1:
+			sc.Ops = append(sc.Ops, c15Op{K: "load", Name: name})
+		case c == 31 || c == 30:
+			// "another process" rewrites the template in the middle of one of the next calls
+			sc.Ops = append(sc.Ops, c15Op{K: "racewrite", L: l, Name: name, At: r.N(4)}, c15Op{K: pick(r, []string{"load", "render"}), Name: name}, c15Op{K: pick(r, []string{"load", "render"}), Name: name})
 		case c < 22:
 			if !ex["loader-faults"] {
 				sc.Ops = append(sc.Ops, c15Op{K: "fault", L: l, F: pick(r, []string{"load-eio", "mtime-err"})})
@@ -138,9 +144,14 @@ type tsLoader struct {
 	mtimes map[string]int
 	fault  *string
 	fired  *int64
+	tick   func(name string) // called at the start and at the end of every loader-level call
 }
 
 func (l *tsLoader) Load(name string) (string, error) {
+	if l.tick != nil {
+		l.tick(name)
+		defer l.tick(name)
+	}
 	s, ok := l.src[name]
 	if !ok {
 		return "", fmt.Errorf("%w: %s", twig.ErrTemplateNotFound, name)
@@ -155,6 +166,10 @@ func (l *tsLoader) Load(name string) (string, error) {
 }
 func (l *tsLoader) Exists(name string) bool { _, ok := l.src[name]; return ok }
 func (l *tsLoader) GetModifiedTime(name string) (int64, error) {
+	if l.tick != nil {
+		l.tick(name)
+		defer l.tick(name)
+	}
 	if _, ok := l.src[name]; !ok {
 		return 0, fmt.Errorf("%w: %s", twig.ErrTemplateNotFound, name)
 	}
@@ -204,7 +219,28 @@ func (propC15) Run(scI interface{}) *Outcome {
 		}
 	}()
 	e := twig.New()
+	// racing writer: armed by a racewrite op, strikes after `left` further loader-level calls on that template
+	var race struct {
+		armed bool
+		l     int
+		name  string
+		left  int
+		fire  func()
+		fired bool
+	}
+	raceTick := func(li int, name string) {
+		if race.armed && race.l == li && race.name == name {
+			if race.left == 0 {
+				race.armed = false
+				race.fired = true
+				race.fire()
+				return
+			}
+			race.left--
+		}
+	}
 	var faultsFired int64
+	var fsLoaders []*c15Loader
 	fsReads := map[string]int{}
 	fsFault := map[string]*string{} // dir -> armed fault
 	w.FSHook = func(op, path string) error {
@@ -225,10 +261,18 @@ func (propC15) Run(scI interface{}) *Outcome {
 		if op == "read" {
 			fsReads[path]++
 		}
+		if race.armed {
+			for li, l := range fsLoaders {
+				if l != nil && len(path) > len(l.dir) && path[:len(l.dir)+1] == l.dir+"/" {
+					raceTick(li, fsName(l, path))
+				}
+			}
+		}
 		return nil
 	}
 	nowS := func() int64 { return w.NowNS() / 1e9 }
 	var loaders []*c15Loader
+	fsLoaders = make([]*c15Loader, len(sc.Loaders))
 	for i, k := range sc.Loaders {
 		l := &c15Loader{kind: k, files: map[string]c15File{}}
 		switch k {
@@ -236,6 +280,8 @@ func (propC15) Run(scI interface{}) *Outcome {
 			l.ts = true
 			l.sim = &tsLoader{src: map[string]string{}, mtime: map[string]int64{}, loads: map[string]int{}, mtimes: map[string]int{}, fault: &l.fault, fired: &faultsFired}
 			l.real = l.sim
+			li := i
+			l.sim.tick = func(name string) { raceTick(li, name) }
 			l.reads = func(n string) int { return l.sim.loads[n] }
 		case "array":
 			l.arr = twig.NewArrayLoader(map[string]string{})
@@ -249,12 +295,14 @@ func (propC15) Run(scI interface{}) *Outcome {
 			l.ts = true
 			l.dir = fmt.Sprintf("tpl%d", i)
 			l.real = twig.NewFileSystemLoader([]string{l.dir})
+			fsLoaders[i] = l
 			fsFault[l.dir] = &l.fault
 			l.reads = func(n string) int { return fsReads[l.dir+"/"+n+".twig"] }
 		case "compiled":
 			l.ts = true
 			l.dir = fmt.Sprintf("cmp%d", i)
 			l.real = twig.NewCompiledLoader(l.dir)
+			fsLoaders[i] = l
 			fsFault[l.dir] = &l.fault
 			l.reads = func(n string) int { return fsReads[l.dir+"/"+n+".twig.compiled"] }
 		}
@@ -301,7 +349,8 @@ func (propC15) Run(scI interface{}) *Outcome {
 	// model state
 	cacheOn, autoReload := true, false
 	cache := map[string]c15Cache{}
-	lastReg := map[string]int{} // name -> version most recently registered (if registration is the latest event)
+	lastReg := map[string]int{}   // name -> version most recently registered (if registration is the latest event)
+	mustServe := map[string]int{} // name -> version a racing writer left behind; the next call that is obliged to look must see it
 	nextVer := 0
 	faultArmed := false
 	fail := func(sig, detail string) *Outcome {
@@ -312,7 +361,11 @@ func (propC15) Run(scI interface{}) *Outcome {
 		return fmt.Sprintf("cacheOn=%v autoReload=%v cache=%v loaders=%v", cacheOn, autoReload, cache, sc.Loaders)
 	}
 	configChanged := false
+	maxNow := w.NowNS()
 	for oi, op := range sc.Ops {
+		if w.NowNS() > maxNow {
+			maxNow = w.NowNS()
+		}
 		w.Note("op."+op.K, oi)
 		if op.L >= len(loaders) {
 			op.L = 0
@@ -377,6 +430,28 @@ func (propC15) Run(scI interface{}) *Outcome {
 			}
 		case "clock":
 			w.AdvanceClock(op.D * 1e9)
+		case "racewrite":
+			l := loaders[op.L]
+			if (l.kind == "simts" || l.kind == "fs" || l.kind == "compiled") && !race.armed {
+				if _, has := l.files[op.Name]; has {
+					name, li := op.Name, op.L
+					race.armed, race.l, race.name, race.left, race.fired = true, li, name, op.At, false
+					race.fire = func() {
+						// the writer's version carries a timestamp strictly newer than anything recorded so far
+						// (after a backwards clock step "newer than now" would not be enough: a change whose
+						// timestamp is not newer than the cached one is a stated don't-care)
+						d := int64(2e9)
+						if maxNow+2e9-w.NowNS() > d {
+							d = maxNow + 2e9 - w.NowNS()
+						}
+						w.AdvanceClock(d)
+						nextVer++
+						setFile(loaders[li], name, nextVer, false)
+						mustServe[name] = nextVer
+						o.Probes["racing_writes_fired"]++
+					}
+				}
+			}
 		case "fault":
 			l := loaders[op.L]
 			if l.kind == "simts" || l.kind == "fs" || l.kind == "compiled" {
@@ -451,6 +526,30 @@ func (propC15) Run(scI interface{}) *Outcome {
 					admissible[rv] = true // only registered, caching off: stated don't-care
 				}
 			}
+			// a racing write that already happened in an EARLIER call: whatever that call cached, a configuration
+			// that obliges this call to look at the loader (caching off, or auto-reload with a newer timestamp)
+			// must now yield the writer's version, provided that loader is the one that wins for the name
+			if mv, ok := mustServe[op.Name]; ok {
+				if v, _, mt := lookup(); v == mv && (!cacheOn || autoReload) {
+					c0, has := cache[op.Name]
+					switch {
+					case !cacheOn || !has:
+						admissible = map[int]bool{mv: true}
+						mustNotRead, mustRead = -1, -1
+					case c0.origin >= 0 && mt > c0.ts:
+						admissible = map[int]bool{mv: true}
+						mustNotRead, mustRead = -1, -1
+					case c0.origin >= 0:
+						// meanwhile the loader's timestamp was moved back to or below the cached one (touch after a
+						// backwards clock step): changed content without a newer timestamp is a stated don't-care
+						admissible[mv] = true
+						admissible[c0.ver] = true
+						mustNotRead, mustRead = -1, -1
+					}
+				}
+				delete(mustServe, op.Name)
+			}
+			raceBefore := race.fired
 			// ---- system ----
 			readsBefore := map[int]int{}
 			for i, l := range loaders {
@@ -482,6 +581,58 @@ func (propC15) Run(scI interface{}) *Outcome {
 			o.Probes["loads_checked"]++
 			if configChanged {
 				o.Nontrivial = true
+			}
+			if race.fired && !raceBefore {
+				// the writer struck during THIS call: it may have served the old or the new version; resynchronise the
+				// model's cache entry with the engine's but keep mustServe so that the NEXT call is judged strictly
+				race.fired = false
+				prev := -5
+				for v := range admissible {
+					prev = v
+				}
+				_ = prev
+				if faultsFired > firedBefore {
+					// an injected loader fault hit the same call: it may fail
+					o.Probes["loader_faults_fired"]++
+					faultArmed = false
+					okVerFault := true
+					_ = okVerFault
+					if t, ok := twig.VerifCached(e)[op.Name]; ok {
+						_, src, lm, ld := twig.VerifTemplateMeta(t)
+						cc := c15Cache{ver: verOf(src), origin: -1, ts: lm}
+						for i, l := range loaders {
+							if l.real == ld {
+								cc.origin = i
+							}
+						}
+						cache[op.Name] = cc
+					} else {
+						delete(cache, op.Name)
+					}
+					delete(lastReg, op.Name)
+					continue
+				}
+				okVer := admissible[got] || got == mustServe[op.Name] || (cached && got == c.ver)
+				if gerr != nil && !errors.Is(gerr, twig.ErrTemplateNotFound) {
+					okVer = false
+				}
+				if !okVer && !(gerr != nil && errors.Is(gerr, twig.ErrTemplateNotFound) && admissible[-1]) {
+					return fail("wrong version served while the template was being rewritten", fmt.Sprintf("op #%d %s %s served v%d err=%v; admissible %v or the writer's v%d\n %s", oi, op.K, op.Name, got, gerr, keysOf(admissible), mustServe[op.Name], describe()))
+				}
+				if t, ok := twig.VerifCached(e)[op.Name]; ok {
+					_, src, lm, ld := twig.VerifTemplateMeta(t)
+					cc := c15Cache{ver: verOf(src), origin: -1, ts: lm}
+					for i, l := range loaders {
+						if l.real == ld {
+							cc.origin = i
+						}
+					}
+					cache[op.Name] = cc
+				} else {
+					delete(cache, op.Name)
+				}
+				delete(lastReg, op.Name)
+				continue
 			}
 			faultNow := faultsFired > firedBefore
 			if faultNow {
@@ -577,10 +728,7 @@ func (propC15) Run(scI interface{}) *Outcome {
 					cc := c15Cache{ver: verOf(src), origin: -1, ts: lm}
 					for i, l := range loaders {
 						if l.real == ld {
-							cc.origin = i
-							if f, ok := serves(l, op.Name); ok && f.ver == cc.ver {
-								cc.ts = f.mtime
-							}
+							cc.origin = i // the recorded timestamp stays the engine's own (lm), not the loader's current one
 						}
 					}
 					cache[op.Name] = cc
@@ -594,6 +742,17 @@ func (propC15) Run(scI interface{}) *Outcome {
 	}
 	o.Sample = map[string]interface{}{"loaders": sc.Loaders, "names": sc.Names, "ops": opsText(sc.Ops)}
 	return o
+}
+
+// fsName maps a path on the simulated disk back to the template name of an fs / compiled loader.
+func fsName(l *c15Loader, path string) string {
+	n := path[len(l.dir)+1:]
+	for _, suf := range []string{".twig.compiled", ".twig"} {
+		if len(n) > len(suf) && n[len(n)-len(suf):] == suf {
+			return n[:len(n)-len(suf)]
+		}
+	}
+	return n
 }
 
 func verOfLoader(l *c15Loader, name string) int {
